@@ -29,7 +29,7 @@ class FragmentGen(G.SheetGen):
     """Sheets inside the fragment of the universal theorem (Lean: CoreSheet.inFragment, Props/C02.C02_fragment):
     action rows, wait_for_response / split_by_value / split_by_group rows, start_new_flow / call_webhook /
     transfer_airtime / split_random rows, go_to and hard/loose exit rows; the conditions leaving one action row name the
-    same variable (or none), conditions leaving a wait row name no variable, no edge carries a category name, tests
+    same variable (or none), conditions leaving a wait row name no variable, explicit category names are new when used, tests
     leaving one row are distinct.  Whether a sheet really is in the fragment is decided by the Lean predicate
     (driver op core.views), not by this generator."""
 
@@ -45,11 +45,6 @@ class FragmentGen(G.SheetGen):
             if r < 0.45:
                 return {"value": self.rng.choice(["x", "y"]), "variable": "", "type": "", "name": self.rng.choice(["A", "B", "E"])}
         return super()._edge_for(src)
-
-    def _fresh_test(self, src, cond):
-        c = super()._fresh_test(src, cond)
-        c["name"] = ""
-        return c
 
     def build(self):
         rng = self.rng
